@@ -30,6 +30,33 @@ def vconfig(recipe):
     return _VCACHE[key]
 
 
+# --- the peer seam: what freud actually handed back to the library --------------------------
+PEER_LOG = None        # list collecting (nlist, weights, volumes) of every tessellation while a producer call runs
+
+
+def install_peer_recorder():
+    """Wrap freud.locality.Voronoi.compute once per process: while PEER_LOG is a list, every
+    tessellation the peer returns is copied into it.  The library's files can then be judged
+    for *fidelity to what the peer returned for exactly the library's own call* - an oracle that
+    needs no assumption about how the points were handed over, so it also applies where the
+    single-precision peer's answer depends on the translation (and the independent reference
+    evaluation therefore cannot be used)."""
+    import freud
+    V = freud.locality.Voronoi
+    if getattr(V, "_simkit_recorder", False):
+        return
+    orig = V.compute
+
+    def compute(self, system, *a, **k):
+        r = orig(self, system, *a, **k)
+        if PEER_LOG is not None:
+            self._called_compute = True          # (freud sets this flag itself as soon as this function returns)
+            PEER_LOG.append((np.array(self.nlist).copy(), np.array(self.nlist.weights, dtype=float), np.array(self.volumes, dtype=float)))
+        return r
+    V.compute = compute
+    V._simkit_recorder = True
+
+
 class VConfig:
     def __init__(self, recipe):
         self.recipe = dict(recipe)
@@ -224,6 +251,11 @@ class VConfig:
         return A / v0[:, None]
 
     def general_position(self):
+        if self.recipe.get("relay_only"):
+            # admitted although the peer's answer is not robust (tiny faces, dependence on the
+            # translation): judged by fidelity to the peer's own answer only.  The peer must at
+            # least have produced an answer for the centred hand-over (no collapsed points)
+            return all(len(r[0]) > 0 for r in self.reference())
         return all(r[3] for r in self.reference())
 
     def snapshots(self, only=None):
@@ -398,7 +430,7 @@ class World(WorldBase):
         if kind == "release":
             return {"op": "release", "all": True}
         if kind == "volume_matrix":
-            small = sorted(c for c, v in self.configs.items() if v.N <= 14)
+            small = sorted(c for c, v in self.configs.items() if v.N <= 14 and not v.recipe.get("relay_only"))
             if not small:
                 return self.gen_config(rng, small=True)
             c = rng.choice(small)
@@ -471,6 +503,11 @@ class World(WorldBase):
             if vconfig(rec).general_position():
                 return {"op": "mk_config", "name": f"c{self.next_c}", "recipe": rec}
             self.ctx.probe("regen_general_position")
+            if not huge and rng.random() < 0.3:
+                rec2 = dict(rec, relay_only=True, nvary=False)
+                if vconfig(rec2).general_position():
+                    self.ctx.probe("config_judged_by_peer_fidelity_only")
+                    return {"op": "mk_config", "name": f"c{self.next_c}", "recipe": rec2}
         raise RuntimeError("no configuration in general position")
 
     def gen_produce(self, rng, prefix=None):
@@ -616,7 +653,13 @@ class World(WorldBase):
         session = self.session_snaps(op["cfg"])
         if fault is None and op.get("nest"):
             fault = self.nest_plan(op["nest"])
-        res, exc, (nev, dig, fired) = self.call(self.client(op, lambda: self.invoke(op, session)), fault)
+        global PEER_LOG
+        install_peer_recorder()
+        PEER_LOG = []
+        try:
+            res, exc, (nev, dig, fired) = self.call(self.client(op, lambda: self.invoke(op, session)), fault)
+        finally:
+            peer, PEER_LOG = PEER_LOG, None
         self.raise_nested()
         self.check_session_snaps(op["cfg"])
         if exc is not None:
@@ -631,15 +674,16 @@ class World(WorldBase):
             self.drop_last()
             raise Violation("C20/producer-raised:produce", f"{exc[0]}: {exc[1]} for N={cfg.N} ndim={cfg.ndim} origin={cfg.recipe['origin']}")
         paths = self.files_of(prefix, cfg.ndim)
-        fn, fw = self.judge_files(cfg, paths)
+        fn, fw = self.judge_files(cfg, paths, peer)
         self.gen_no[prefix] = self.gen_no.get(prefix, 0) + 1
         self.outs[prefix] = {"cfg": op["cfg"], "frames_n": fn, "frames_w": fw, "gen": self.gen_no[prefix], "paths": paths}
         for p in paths:
             self.ack(p, "produce")
         return f"{prefix} ev={nev} io={dig}"
 
-    def judge_files(self, cfg, paths):
+    def judge_files(self, cfg, paths, peer=None):
         pn, pw, po = paths
+        relay_only = bool(cfg.recipe.get("relay_only"))
         try:
             fn = parse_frames(pn, list(cfg.Ns))
             fw = parse_frames(pw, list(cfg.Ns))
@@ -648,7 +692,7 @@ class World(WorldBase):
             raise Violation("C20/file-layout:produce", f"{type(e).__name__}: {e}")
         if not (len(fn) == len(fw) == len(fo) == cfg.T):
             raise Violation("C20/file-frames:produce", f"frames: neighbor {len(fn)}, weights {len(fw)}, overall {len(fo)}, trajectory {cfg.T}")
-        ref = cfg.reference()
+        ref = cfg.reference() if not relay_only else None
         out_n, out_w = [], []
         for t in range(cfg.T):
             N = cfg.Ns[t]
@@ -668,9 +712,19 @@ class World(WorldBase):
                     if not 1 <= j <= N:
                         raise Violation("C20/ids:produce", f"frame {t} particle {pid}: neighbour id {j}")
                     w = float(w)
-                    if not w > 0:
+                    if not w > 0 and not relay_only:
                         raise Violation("C20/weight:produce", f"frame {t} pair ({pid},{j}): weight {w}")
                     pairs.setdefault((pid, j), []).append(w)
+            vols = np.array([r[2] for r in ro])
+            self.judge_fidelity(t, N, pairs, vols, peer)
+            if relay_only:
+                # the peer's own answer is not robust here (faces below the files' resolution, an
+                # answer that depends on the hand-over translation): symmetry, positivity and the
+                # comparison with an independent evaluation are not decidable; ids, counts and
+                # fidelity to the peer's answer are
+                out_n.append(rn)
+                out_w.append(rw)
+                continue
             for (i, j), ws in pairs.items():
                 back = pairs.get((j, i))
                 if back is None or len(back) != len(ws):
@@ -694,6 +748,45 @@ class World(WorldBase):
             out_n.append(rn)
             out_w.append(rw)
         return out_n, out_w
+
+    def judge_fidelity(self, t, N, pairs, vols, peer):
+        """The files relay what the peer returned for the library's own call: every bond the peer
+        reported with a weight the files can resolve is listed (as often as the peer reported it),
+        with that weight; nothing is listed that the peer did not report; volumes are the peer's."""
+        if peer is None:
+            return
+        cands = [e for e in peer if len(e[2]) == N]
+        if not cands:
+            self.ctx.probe("peer_call_not_observed")
+            return
+        why = None
+        for nl, w, v in cands:
+            pp = {}
+            for (i, j), x in zip(nl, w):
+                pp.setdefault((int(i) + 1, int(j) + 1), []).append(float(x))
+            why = None
+            for k, ws in pp.items():
+                big = sorted(x for x in ws if x >= 2e-6)
+                got = sorted(pairs.get(k, []))
+                if len(got) < len(big) or len(got) > len(ws):
+                    why = f"pair {k}: the peer reported it {len(ws)}x ({len(big)}x with a weight the file can resolve: {big[:3]}), the files list it {len(got)}x"
+                    break
+                for a, b in zip(got[::-1], sorted(ws)[::-1]):
+                    if abs(a - b) > 5.1e-7 + 1e-6 * abs(b):
+                        why = f"pair {k}: written weight {a}, the peer returned {b}"
+                        break
+                if why:
+                    break
+            if why is None:
+                extra = [k for k in pairs if k not in pp]
+                if extra:
+                    why = f"pair {extra[0]} is listed but the peer did not report it"
+            if why is None and (len(v) != len(vols) or float(np.max(np.abs(vols - v))) > 5.1e-7 + 1e-6 * float(np.max(np.abs(v)))):
+                why = "written volumes are not the peer's"
+            if why is None:
+                self.ctx.probe("frames_faithful_to_the_peer")
+                return
+        raise Violation("C20/peer-fidelity:produce", f"frame {t}: the files do not relay what the tessellation library returned to this call: {why}")
 
     def do_open_reader(self, op):
         prefix = op["prefix"]
@@ -801,7 +894,7 @@ class World(WorldBase):
             raise Refuse("no config")
         cfg = self.configs[op["cfg"]]
         k = op["nconfig"]
-        if k >= cfg.T or cfg.N > 14:
+        if k >= cfg.T or cfg.N > 14 or cfg.recipe.get("relay_only"):
             raise Refuse("frame index")
         if op.get("default_ndim") and cfg.ndim != 2:
             raise Refuse("default ndim is 2")
